@@ -31,6 +31,7 @@ type Pred struct {
 	Name     string `json:"name,omitempty"`     // object name addressed (exact)
 	NameHas  string `json:"nameHas,omitempty"`  // substring of the path (e.g. record name prefix)
 	PathHas  string `json:"pathHas,omitempty"`  // substring of the path
+	PathNot  string `json:"pathNot,omitempty"`  // substring the path must not contain
 	Nth      int    `json:"nth,omitempty"`      // fire on the n-th match (0 = every match up to Repeat)
 	BodyHas  string `json:"bodyHas,omitempty"`  // substring of the request body
 	Storage  *bool  `json:"storage,omitempty"`  // request addresses a release record (true) / anything else (false)
@@ -96,6 +97,9 @@ func (pd *Pred) match(p *pend) bool {
 	if pd.PathHas != "" && !strings.Contains(p.path, pd.PathHas) {
 		return false
 	}
+	if pd.PathNot != "" && strings.Contains(p.path, pd.PathNot) {
+		return false
+	}
 	if pd.BodyHas != "" && !strings.Contains(string(p.body), pd.BodyHas) {
 		return false
 	}
@@ -126,6 +130,7 @@ type HookSpec struct {
 // ResSlot describes one YAML document emitted by a template.
 type ResSlot struct {
 	Kind    string            `json:"kind"`
+	Group   string            `json:"group,omitempty"` // API group override (a kind served by more than one group)
 	Name    string            `json:"name"`
 	NS      string            `json:"ns,omitempty"`   // explicit metadata.namespace
 	File    string            `json:"file"`           // template file name (under templates/)
